@@ -37,6 +37,10 @@ type InterCase struct {
 	// CompleteLiteral: the completion pattern is not the prompt but a refusal line the device
 	// prints (at EarlyAfter, if any) before it redraws its prompt.
 	CompleteLiteral bool  `json:"complete_literal,omitempty"`
+	// NoAnswer (EarlyAfter >= 0, no completion pattern): the device goes back to its prompt instead
+	// of showing the response event EarlyAfter expects; nothing ends the wait, so the later inputs
+	// are never typed and the send ends in an error
+	NoAnswer bool `json:"no_answer,omitempty"`
 	Plan            []int `json:"plan"`
 	ReadSize        int   `json:"read_size"`
 	ReadDelayNS     int64 `json:"read_delay_ns"`
@@ -75,6 +79,10 @@ func genInter(t *rapid.T) InterCase {
 
 	c.CompleteLiteral = c.Complete && rapid.Bool().Draw(t, "completeLiteral")
 
+	if c.EarlyAfter >= 0 && rapid.IntRange(0, 3).Draw(t, "noAnswer") == 0 {
+		c.NoAnswer, c.Complete, c.CompleteLiteral = true, false, false
+	}
+
 	for i := 0; i < n; i++ {
 		e := Event{Input: sim.GenCommand(t), DelayUS: int64(rapid.SampledFrom([]int{0, 0, 30, 700, 5000}).Draw(t, "delayUS"))}
 
@@ -100,6 +108,10 @@ func genInter(t *rapid.T) InterCase {
 		}
 
 		c.Events = append(c.Events, e)
+	}
+
+	if c.NoAnswer && c.Events[c.EarlyAfter].Response == "" {
+		c.Events[c.EarlyAfter].Response = questions[0]
 	}
 
 	return c
@@ -276,6 +288,20 @@ func runInter(c InterCase) ev.Verdict {
 	warmWrites := len(pipe.Events())
 
 	r, err := d.SendInteractive(events, oo...)
+
+	if c.NoAnswer && c.Events[c.EarlyAfter].Response != "" {
+		// the expected response never came and nothing was configured to end the dialogue early
+		if err == nil {
+			return ev.Fail("the device went back to its prompt instead of showing what event %d expects (%q), no completion pattern was given, yet the send reported success (device lines %q)", c.EarlyAfter, c.Events[c.EarlyAfter].Response, dev.lines)
+		}
+
+		if len(dev.lines) != c.EarlyAfter+1 || len(dev.cur) != 0 {
+			return ev.Fail("event %d's expected response never came, but the device received %q (and %q without a return): inputs of later events were typed", c.EarlyAfter, dev.lines, dev.cur)
+		}
+
+		return ev.Verdict{OK: true, NonTrivial: true, Classes: []string{"response-never-comes"}}
+	}
+
 	if err != nil {
 		return ev.Fail("SendInteractive: %v (device lines %q)", err, dev.lines)
 	}
